@@ -409,9 +409,7 @@ func rulePairAlive(w *World, r *RuleResult) {
 			d.add(fresh, key+"/fresh-queue", c.posOf(s.e), "a fresh queue is installed before the warrior becomes alive", "warrior set alive without installing a fresh process queue on this path (stale tasks survive, or nil queue)")
 		case "WarriorDead":
 			// reviewed exception: zombie reap, control dependent on Pop failing
-			zombie := hasCond(s.p, func(a *T, v bool) bool {
-				return a.Op == "eq" && !v && a.A[1].Op == "nil" && a.A[0].Op == "ext" && a.A[0].A[0].Op == "call" && c.a.Pop != nil && a.A[0].A[0].S == fnKey(c.a.Pop)
-			})
+			zombie := hasCond(s.p, c.popFailed)
 			if zombie {
 				d.add(true, key+"/zombie-reap", c.posOf(s.e), "reviewed exception: unreachable reap of an alive warrior with an empty queue (alive => non-empty queue by PAIR.alive + death test after every execution)", "")
 				continue
@@ -468,9 +466,7 @@ func ruleDeathReport(w *World, r *RuleResult) {
 		if ws[s.val] != "WarriorDead" {
 			continue
 		}
-		zombie := hasCond(s.p, func(a *T, v bool) bool {
-			return a.Op == "eq" && !v && a.A[1].Op == "nil" && a.A[0].Op == "ext"
-		})
+		zombie := hasCond(s.p, c.popFailed)
 		if zombie {
 			continue
 		}
@@ -572,7 +568,7 @@ func ruleSchedLoop(w *World, r *RuleResult) {
 		var popEv, execEv *Event
 		for i := range p.Events {
 			e := &p.Events[i]
-			if e.Kind == "call" && e.Callee == c.a.Pop {
+			if e.Kind == "call" && c.isPopFn(e.Callee) {
 				pops = append(pops, i)
 				popEv = e
 			}
@@ -598,7 +594,7 @@ func ruleSchedLoop(w *World, r *RuleResult) {
 			pcOK, warOK := false, false
 			if good {
 				pc := stripConv(execEv.Args[1])
-				pcOK = pc.Op == "ext" && pc.C == 1 && pc.A[0].Op == "call" && pc.A[0].S == fnKey(c.a.Pop)
+				pcOK = pc.Op == "ext" && pc.C == 1 && c.isPopCall(pc.A[0])
 				// same warrior: queue popped belongs to warriors[i], exec gets warriors[i]
 				qx, ok := selOf(popEv.Args[0], c.a.QField)
 				wr := stripEpoch(execEv.Args[2])
